@@ -177,6 +177,15 @@ Proof.
     (constructor; intros; crush).
 Qed.
 
+(* an interrupted waiter only changes its own pc, and neither Waiting nor GaveUp occurs in Inv *)
+Lemma inv_cancel : forall s p s', Inv s -> step s (Cancel p) = Some s' -> Inv s'.
+Proof.
+  intros s p s' HI Hs.
+  unfold step in Hs. destruct (pcs s p) eqn:Ep; try discriminate.
+  inversion Hs; subst; clear Hs; dinv HI.
+  constructor; intros; crush.
+Qed.
+
 (* ---------------------------------------------------------------- mutual exclusion, guarded *)
 Lemma inv_step : forall s e s', Inv s -> step s e = Some s' ->
   read_before_write s e = false -> remove_of_unexamined_inode s e = false -> Inv s'.
@@ -190,6 +199,7 @@ Proof.
   - eapply inv_wake; eauto.
   - eapply inv_unlock; eauto.
   - eapply inv_crash; eauto.
+  - eapply inv_cancel; eauto.
 Qed.
 
 Lemma inv_init : forall s, init s -> Inv s.
@@ -533,4 +543,257 @@ Proof.
   assert (B : stale w2_init 0) by (unfold stale; simpl; reflexivity).
   assert (C : pcs w2_init 0 = Idle) by reflexivity.
   repeat split; try assumption. eapply stale_recovered; eassumption.
+Qed.
+
+(* ---------------------------------------------------------------- cancellation of a waiter *)
+(* [Cancel p]: ctx.Done() wins the select in Lock (workspace_locker.go:80-81). *)
+
+(* an interrupted waiter changes nothing but its own pc *)
+Theorem cancel_frame : forall s p s', step s (Cancel p) = Some s' ->
+  pcs s p = Waiting /\
+  lock s' = lock s /\ (forall i, content s' i = content s i) /\
+  (forall i, creator s' i = creator s i) /\ next s' = next s /\
+  (forall q, q <> p -> pcs s' q = pcs s q) /\ pcs s' p = GaveUp.
+Proof.
+  intros s p s' Hs. simpl in Hs. destruct (pcs s p) eqn:Ep; try discriminate.
+  inversion Hs; subst; clear Hs. simpl.
+  repeat split; try reflexivity.
+  - intros q Hq. apply upd_other. assumption.
+  - apply upd_same.
+Qed.
+
+(* a step only changes the pc of its actor *)
+Lemma step_other : forall s e s' q, step s e = Some s' -> q <> actor e -> pcs s' q = pcs s q.
+Proof.
+  intros s e s' q Hs Hq.
+  destruct e as [p|p|p|p|p|p|p|p|p]; simpl in Hs, Hq;
+    destruct (pcs s p) eqn:Ep; try discriminate;
+    repeat match type of Hs with
+           | context[match ?x with _ => _ end] => destruct x
+           end;
+    try discriminate; inversion Hs; subst; simpl; apply upd_other; assumption.
+Qed.
+
+(* the pcs of a contender t that finds the live holder h's file (inode i) at the path *)
+Definition blocked_pc (i : inode) (h : pid) (c : pc) : Prop :=
+  c = Idle \/ c = WantRead \/ c = WantProbe i h \/ c = Waiting \/ c = GaveUp.
+
+Lemma blocked_not_held : forall i h c, blocked_pc i h c -> forall j, c <> Held j.
+Proof. intros i h c [E|[E|[E|[E|E]]]] j; rewrite E; discriminate. Qed.
+
+(* h holds, its file is at the path with its PID in it: a step of another contender t itself
+   (anything but its death) keeps all that and keeps t in [blocked_pc] *)
+Lemma blocked_step : forall s h i t e s',
+  pcs s h = Held i -> lock s = Some i -> content s i = Some h -> t <> h ->
+  blocked_pc i h (pcs s t) -> own_step t e -> step s e = Some s' ->
+  pcs s' h = Held i /\ lock s' = Some i /\ content s' i = Some h /\ blocked_pc i h (pcs s' t).
+Proof.
+  intros s h i t e s' Hh Hl Hc Hne Hb [Ha Hnc] Hs.
+  assert (Hne' : h <> t) by (intro; apply Hne; symmetry; assumption).
+  destruct e as [p|p|p|p|p|p|p|p|p]; simpl in Ha; subst p;
+    try (exfalso; apply Hnc; reflexivity); simpl in Hs;
+    destruct Hb as [E|[E|[E|[E|E]]]]; rewrite E in Hs; try discriminate.
+  - (* TryCreate at Idle: EEXIST *)
+    rewrite Hl in Hs. inversion Hs; subst; clear Hs. simpl.
+    rewrite upd_same, upd_other by assumption. unfold blocked_pc. repeat split; auto 7.
+  - (* Read at WantRead: h's PID *)
+    rewrite Hl, Hc in Hs. inversion Hs; subst; clear Hs. simpl.
+    rewrite upd_same, upd_other by assumption. unfold blocked_pc. repeat split; auto 7.
+  - (* Probe: h is alive *)
+    inversion E; subst. unfold alive_b in Hs. rewrite Hh in Hs. simpl in Hs.
+    inversion Hs; subst; clear Hs. simpl.
+    rewrite upd_same, upd_other by assumption. unfold blocked_pc. repeat split; auto 7.
+  - (* Wake *)
+    inversion Hs; subst; clear Hs. simpl.
+    rewrite upd_same, upd_other by assumption. unfold blocked_pc. repeat split; auto 7.
+  - (* Cancel *)
+    inversion Hs; subst; clear Hs. simpl.
+    rewrite upd_same, upd_other by assumption. unfold blocked_pc. repeat split; auto 7.
+Qed.
+
+Lemma blocked_run : forall evs s h i t s',
+  pcs s h = Held i -> lock s = Some i -> content s i = Some h -> t <> h ->
+  blocked_pc i h (pcs s t) -> Forall (own_step t) evs -> run s evs = Some s' ->
+  pcs s' h = Held i /\ lock s' = Some i /\ content s' i = Some h /\ blocked_pc i h (pcs s' t).
+Proof.
+  induction evs as [|e r IH]; intros s h i t s' Hh Hl Hc Hne Hb Hf Hr; simpl in Hr.
+  - inversion Hr; subst. auto.
+  - inversion Hf as [|e' r' Ho Hf']; subst.
+    destruct (step s e) as [s1|] eqn:Es; [|discriminate].
+    destruct (blocked_step _ _ _ _ _ _ Hh Hl Hc Hne Hb Ho Es) as [Hh1 [Hl1 [Hc1 Hb1]]].
+    eapply IH; eassumption.
+Qed.
+
+(* ... and t, run alone from the top of its loop, is Waiting after three calls *)
+Lemma blocked_reaches_waiting : forall s h i t,
+  pcs s h = Held i -> lock s = Some i -> content s i = Some h -> t <> h -> pcs s t = Idle ->
+  exists s2, run s [TryCreate t; Read t; Probe t] = Some s2 /\ pcs s2 t = Waiting.
+Proof.
+  intros s h i t Hh Hl Hc Hne Ep.
+  assert (Hne' : h <> t) by (intro; apply Hne; symmetry; assumption).
+  assert (Hq : Nat.eqb h t = false) by (apply Nat.eqb_neq; assumption).
+  assert (S1 : step s (TryCreate t) = Some (set_pc s t WantRead))
+    by (simpl; rewrite Ep, Hl; reflexivity).
+  set (s1 := set_pc s t WantRead) in *.
+  assert (S2 : step s1 (Read t) = Some (set_pc s1 t (WantProbe i h)))
+    by (unfold s1; simpl; rewrite upd_same, Hl, Hc; reflexivity).
+  set (s2 := set_pc s1 t (WantProbe i h)) in *.
+  assert (S3 : step s2 (Probe t) = Some (set_pc s2 t Waiting)).
+  { unfold s2, s1. simpl. rewrite upd_same. unfold alive_b. simpl. unfold upd. rewrite Hq, Hh.
+    reflexivity. }
+  exists (set_pc s2 t Waiting). split.
+  - cbn [run]. rewrite S1, S2, S3. reflexivity.
+  - simpl. apply upd_same.
+Qed.
+
+(* Mutual exclusion survives the cancellation of a waiter: in a state of the guarded relation in
+   which h holds, after [Cancel w] the state is still in the guarded relation, h still holds, the
+   path still names h's inode and that inode still contains h's PID; every further contender t,
+   run alone from the top of its loop, is Waiting after three calls and never gets past Lock()
+   -- and never disturbs h's file -- however long it runs. *)
+Theorem cancel_keeps_holder : forall s0 s h i w s1,
+  init s0 -> reachable_g s0 s -> pcs s h = Held i -> step s (Cancel w) = Some s1 ->
+  reachable_g s0 s1 /\ pcs s1 h = Held i /\ lock s1 = Some i /\ content s1 i = Some h /\
+  forall t, pcs s1 t = Idle ->
+    (exists s2, run s1 [TryCreate t; Read t; Probe t] = Some s2 /\ pcs s2 t = Waiting) /\
+    (forall evs s2, Forall (own_step t) evs -> run s1 evs = Some s2 ->
+       ~ holds s2 t /\ pcs s2 h = Held i /\ lock s2 = Some i /\ content s2 i = Some h).
+Proof.
+  intros s0 s h i w s1 Hi Hr Hh Hs.
+  destruct (holder_file _ _ Hi Hr _ _ Hh) as [Hl Hc].
+  destruct (cancel_frame _ _ _ Hs) as [Ew [Fl [Fc [_ [_ [Fo Fw]]]]]].
+  assert (Hwh : h <> w) by (intro; subst; congruence).
+  assert (Hh1 : pcs s1 h = Held i) by (rewrite Fo; assumption).
+  assert (Hl1 : lock s1 = Some i) by (rewrite Fl; assumption).
+  assert (Hc1 : content s1 i = Some h) by (rewrite Fc; assumption).
+  split; [eapply rg_step; [exact Hr | exact Hs | reflexivity | reflexivity]|].
+  split; [assumption|]. split; [assumption|]. split; [assumption|].
+  intros t Et.
+  assert (Hth : t <> h) by (intro; subst; congruence).
+  split.
+  - eapply blocked_reaches_waiting; eassumption.
+  - intros evs s2 Hf Hr2.
+    assert (Hb : blocked_pc i h (pcs s1 t)) by (left; assumption).
+    destruct (blocked_run _ _ _ _ _ _ Hh1 Hl1 Hc1 Hth Hb Hf Hr2) as [Hh2 [Hl2 [Hc2 Hb2]]].
+    split; [|auto].
+    intros [j Ej]. exact (blocked_not_held _ _ _ Hb2 j Ej).
+Qed.
+
+(* after GaveUp a process has no step of its own left but its exit *)
+Lemma gaveup_stuck : forall s w e, pcs s w = GaveUp -> actor e = w -> e <> Crash w -> step s e = None.
+Proof.
+  intros s w e Ew Ha Hnc.
+  destruct e as [p|p|p|p|p|p|p|p|p]; simpl in Ha; subst p; simpl; rewrite Ew; try reflexivity.
+  exfalso. apply Hnc. reflexivity.
+Qed.
+
+Definition gone (c : pc) : Prop := c = GaveUp \/ c = Dead.
+
+Lemma gone_step : forall s e s' w, gone (pcs s w) -> step s e = Some s' -> gone (pcs s' w).
+Proof.
+  intros s e s' w Hg Hs. destruct (Nat.eq_dec w (actor e)) as [Ha|Ha].
+  - destruct e as [p|p|p|p|p|p|p|p|p]; simpl in Ha; subst p; simpl in Hs;
+      destruct Hg as [E|E]; rewrite E in Hs; try discriminate.
+    inversion Hs; subst. simpl. rewrite upd_same. right. reflexivity.
+  - rewrite (step_other _ _ _ _ Hs Ha). assumption.
+Qed.
+
+Lemma gone_run : forall evs s s' w, gone (pcs s w) -> run s evs = Some s' -> gone (pcs s' w).
+Proof.
+  induction evs as [|e r IH]; intros s s' w Hg Hr; simpl in Hr.
+  - inversion Hr; subst. assumption.
+  - destruct (step s e) as [s1|] eqn:Es; [|discriminate].
+    eapply IH; [eapply gone_step; eassumption | eassumption].
+Qed.
+
+(* a waiter can always give up, and then it never gets past Lock(): its only remaining step is
+   its exit, and no schedule whatsoever (of any processes) makes it hold *)
+Theorem waiter_can_give_up : forall s w, pcs s w = Waiting ->
+  exists s1, step s (Cancel w) = Some s1 /\ pcs s1 w = GaveUp /\
+    (forall e, actor e = w -> e <> Crash w -> step s1 e = None) /\
+    (forall evs s2, run s1 evs = Some s2 -> ~ holds s2 w).
+Proof.
+  intros s w Ew. exists (set_pc s w GaveUp).
+  assert (Eg : pcs (set_pc s w GaveUp) w = GaveUp) by (simpl; apply upd_same).
+  split; [simpl; rewrite Ew; reflexivity|]. split; [assumption|]. split.
+  - intros e Ha Hnc. apply gaveup_stuck with (w := w); assumption.
+  - intros evs s2 Hr [j Ej].
+    assert (Hg : gone (pcs s2 w)) by (eapply gone_run; [left; exact Eg | exact Hr]).
+    destruct Hg as [E|E]; rewrite E in Ej; discriminate.
+Qed.
+
+(* [Cancel] is enabled exactly at Waiting *)
+Lemma cancel_enabled_iff : forall s p, (exists s', step s (Cancel p) = Some s') <-> pcs s p = Waiting.
+Proof.
+  intros s p. split.
+  - intros [s' Hs]. simpl in Hs. destruct (pcs s p); try discriminate. reflexivity.
+  - intro E. exists (set_pc s p GaveUp). simpl. rewrite E. reflexivity.
+Qed.
+
+(* ---------------------------------------------------------------- non-vacuity of the cancellation theorems *)
+Definition pc_is_held_at (c : pc) (i : inode) : bool :=
+  match c with Held j => Nat.eqb i j | _ => false end.
+Definition pc_is_waiting (c : pc) : bool := match c with Waiting => true | _ => false end.
+Definition pc_is_gaveup (c : pc) : bool := match c with GaveUp => true | _ => false end.
+Definition pc_is_idle (c : pc) : bool := match c with Idle => true | _ => false end.
+Definition pc_is_done (c : pc) : bool := match c with Done => true | _ => false end.
+
+Lemma pc_is_held_at_eq : forall c i, pc_is_held_at c i = true -> c = Held i.
+Proof. intros c i H. destruct c; try discriminate. simpl in H. apply Nat.eqb_eq in H. subst. reflexivity. Qed.
+Lemma pc_is_waiting_eq : forall c, pc_is_waiting c = true -> c = Waiting.
+Proof. intros c H. destruct c; try discriminate. reflexivity. Qed.
+Lemma pc_is_gaveup_eq : forall c, pc_is_gaveup c = true -> c = GaveUp.
+Proof. intros c H. destruct c; try discriminate. reflexivity. Qed.
+Lemma pc_is_idle_eq : forall c, pc_is_idle c = true -> c = Idle.
+Proof. intros c H. destruct c; try discriminate. reflexivity. Qed.
+Lemma pc_is_done_eq : forall c, pc_is_done c = true -> c = Done.
+Proof. intros c H. destruct c; try discriminate. reflexivity. Qed.
+
+(* schedule NC (Lock.v): 0 holds, 1 waits -- the hypotheses of [cancel_keeps_holder] and
+   [waiter_can_give_up] --; 1 is cancelled and 2, started afterwards, waits behind 0's intact
+   file; 0 unlocks, 2 wakes up and acquires; 1 has given up for good.  No guard fires. *)
+Theorem cancel_nonvacuous :
+  nc_sched = [TryCreate 0; WritePid 0; TryCreate 1; Read 1; Probe 1; Cancel 1;
+              TryCreate 2; Read 2; Probe 2; Unlock 0; Wake 2; TryCreate 2; WritePid 2] /\
+  init w1_init /\
+  (exists s, run_g w1_init (firstn 5 nc_sched) = Some s /\ reachable_g w1_init s /\
+     pcs s 0 = Held 0 /\ pcs s 1 = Waiting /\ pcs s 2 = Idle) /\
+  (exists s, run_g w1_init (firstn 9 nc_sched) = Some s /\ reachable_g w1_init s /\
+     pcs s 0 = Held 0 /\ pcs s 1 = GaveUp /\ pcs s 2 = Waiting /\
+     lock s = Some 0 /\ content s 0 = Some 0) /\
+  (exists s, run_g w1_init nc_sched = Some s /\ reachable_g w1_init s /\
+     holds s 2 /\ pcs s 1 = GaveUp /\ pcs s 0 = Done).
+Proof.
+  split; [reflexivity|]. split; [exact w1_init_ok|]. split; [|split].
+  - destruct (run_g w1_init (firstn 5 nc_sched)) as [s|] eqn:E; [|vm_compute in E; discriminate].
+    exists s. split; [reflexivity|]. split; [eapply run_g_reachable_g; eassumption|].
+    assert (X : match run_g w1_init (firstn 5 nc_sched) with
+                | Some t => pc_is_held_at (pcs t 0) 0 && pc_is_waiting (pcs t 1) && pc_is_idle (pcs t 2)
+                | None => false end = true) by (vm_compute; reflexivity).
+    rewrite E in X. apply andb_true_iff in X. destruct X as [X X3].
+    apply andb_true_iff in X. destruct X as [X1 X2].
+    split; [apply pc_is_held_at_eq; assumption|].
+    split; [apply pc_is_waiting_eq; assumption | apply pc_is_idle_eq; assumption].
+  - destruct (run_g w1_init (firstn 9 nc_sched)) as [s|] eqn:E; [|vm_compute in E; discriminate].
+    exists s. split; [reflexivity|]. split; [eapply run_g_reachable_g; eassumption|].
+    assert (X : match run_g w1_init (firstn 9 nc_sched) with
+                | Some t => pc_is_held_at (pcs t 0) 0 && pc_is_gaveup (pcs t 1) && pc_is_waiting (pcs t 2)
+                            && opt_inode_eqb (lock t) (Some 0) && opt_inode_eqb (content t 0) (Some 0)
+                | None => false end = true) by (vm_compute; reflexivity).
+    rewrite E in X. apply andb_true_iff in X. destruct X as [X X5].
+    apply andb_true_iff in X. destruct X as [X X4]. apply andb_true_iff in X. destruct X as [X X3].
+    apply andb_true_iff in X. destruct X as [X1 X2].
+    split; [apply pc_is_held_at_eq; assumption|]. split; [apply pc_is_gaveup_eq; assumption|].
+    split; [apply pc_is_waiting_eq; assumption|]. split.
+    + destruct (lock s) as [j|]; simpl in X4; [|discriminate]. apply Nat.eqb_eq in X4. subst. reflexivity.
+    + destruct (content s 0) as [j|]; simpl in X5; [|discriminate]. apply Nat.eqb_eq in X5. subst. reflexivity.
+  - destruct (run_g w1_init nc_sched) as [s|] eqn:E; [|vm_compute in E; discriminate].
+    exists s. split; [reflexivity|]. split; [eapply run_g_reachable_g; eassumption|].
+    assert (X : match run_g w1_init nc_sched with
+                | Some t => holds_b t 2 && pc_is_gaveup (pcs t 1) && pc_is_done (pcs t 0)
+                | None => false end = true) by (vm_compute; reflexivity).
+    rewrite E in X. apply andb_true_iff in X. destruct X as [X X3].
+    apply andb_true_iff in X. destruct X as [X1 X2].
+    split; [apply holds_of_b; assumption|].
+    split; [apply pc_is_gaveup_eq; assumption | apply pc_is_done_eq; assumption].
 Qed.
